@@ -47,3 +47,27 @@ Print Assumptions C16_identifier_pass_idempotent.
    implementation only *)
 Definition C16_full : Prop := forall objs out,
   assign_all objs = Ok out -> assign_all out = Ok out.
+
+(* ------------------------------------------------------------------------------------------ *)
+(* The whole-file writer model (Fmt/EdifEmit.v): the document is a function of the netlist value,
+   the timestamp fields and the program metadata, nothing else. After a write the value is in
+   dependency order ([ordered], evaluated on the value of every composed netlist of every C03 / C16
+   run together with prepass v = Some v); on such a value the pre-pass of the next write changes
+   nothing, so the second document is the first one up to the timestamp parameter. *)
+From SV Require Import Fmt.EdifFile Fmt.EdifEmit Proofs.EdifEmitProofs.
+
+Theorem C16_prepass_fixpoint : forall n, ordered n = true -> prepass n = Some n.
+Proof. exact prepass_ordered. Qed.
+Print Assumptions C16_prepass_fixpoint.
+
+Theorem C16_emit_second_write : forall ts prog n n1, prepass n = Some n1 -> ordered n1 = true ->
+  prepass n1 = Some n1 /\
+  forall n2, prepass n1 = Some n2 -> emit_file ts prog n2 = emit_file ts prog n1.
+Proof. exact emit_second_write. Qed.
+Print Assumptions C16_emit_second_write.
+
+(* NOT PROVED: the modelled reordering always ends in dependency order (needs the re-indexing of the
+   dependency function along the permutation; C16_reorder_is_sorted_permutation is the statement
+   on handles). With it, emit_file (prepass (prepass n)) = emit_file (prepass n) for every n. *)
+Definition C16_prepass_idempotent_full : Prop := forall n n1,
+  prepass n = Some n1 -> ordered n1 = true.
